@@ -131,6 +131,26 @@ def fam_huge(rng: random.Random):
     return W, H, items
 
 
+def fam_tight(rng: random.Random):
+    """k-1 perfectly filled bins (a guillotine dissection) plus one 1x1 item, listed FIRST: the lower bound on
+    the bins is k and the packing below attains the declared lower bounds of the area objectives exactly.
+    Bin sides are a few hundred to a few thousand, so item areas exceed the range of the int16 instance."""
+    from .c03 import guillotine
+    while True:
+        W, H, items, rows, kk = guillotine(rng, rng.choice([150, 400, 1000, 2500]), rng.choice([1, 2, 3]),
+                                           rng.randint(1, 7))
+        # only perfect dissections (no trims/drops): area = kk * W * H
+        if sum(w * h * r for w, h, r in items) == kk * W * H and min(W, H) >= 2:
+            break
+    items2 = [[1, 1, 1]] + [it for it in items]
+    rows2 = [[r[0] + 1, r[1], r[2], r[3], r[4], r[5]] for r in rows]
+    # merge: if a 1x1 type already exists in items, keep it separate (allowed: duplicate types)
+    x, y = rng.randint(0, W - 1), rng.randint(0, H - 1)
+    rows2.append([1, kk + 1, x, y, x + 1, y + 1])
+    rng.shuffle(rows2)
+    return W, H, items2, rows2, kk + 1
+
+
 def _case(cid: str, inst, packs: list, objs: Objectives) -> dict:
     rec = {"id": cid, **bp.inst_record(inst), **objs.bounds(), "packs": []}
     for rows, nb in packs:
@@ -221,9 +241,13 @@ def run(prop: str, tier: str, seed: int) -> int:
             elif u < 0.74:
                 inst = bp.make_instance(*bp.fam_storage_edge(rng))
                 fam = "storage-edge"
-            elif u < 0.90:
+            elif u < 0.80:
                 inst = bp.make_instance(*fam_huge(rng))
                 fam = "huge-area"
+            elif u < 0.92:
+                W, H, its, trows, tk = fam_tight(rng)
+                inst = bp.make_instance(W, H, its)
+                fam = "tight-lower-bound"
             else:
                 inst = bp.fam_shipped(rng, 40)
                 fam = "shipped"
@@ -231,6 +255,8 @@ def run(prop: str, tier: str, seed: int) -> int:
             continue
         objs = Objectives(inst)
         packs = []
+        if fam == "tight-lower-bound":
+            packs.append((trows, tk))
         for _ in range(rng.randint(3, 5)):
             v = rng.random()
             if v < 0.35 and fam != "huge-area":
